@@ -44,7 +44,7 @@ def floors(tier):
     return {"evals": n * STEPS[tier] // 3, "distinct": n // 4,
             "counters": {"asserted_matrices_classified": n * STEPS[tier],
                          "returned_covariances_classified": n * STEPS[tier] // 3,
-                         "histories_singular_family": n // 6,
+                         "histories_singular_family": n // 6, "histories_tiny_magnitude": n // 8,
                          "histories_completed": n // 3,
                          "cpp_returned_covariances_classified": N_CPP[tier] * 20,
                          "cpp_histories_with_several_controls": N_CPP[tier] // 3}}
@@ -78,6 +78,17 @@ def gen_defn(rng, i):
         return gen.family_mass_zva()
     if fam == 1:
         return gen.family_duplicated(rng)
+    if fam == 5:
+        # small but valid magnitudes (variances and noises ~1e-8): absolute tolerances that are harmless at
+        # O(1) matter here
+        d = gen.contractive_program(rng, n_state=(1, 3), n_control=(1, 2), n_calib=(0, 1), n_sensor=(1, 2),
+                                    n_reading=(1, 2), depth=1, n_shared=(0, 1), allow_text=False)
+        sc = rng.choice([1e-8, 1e-9, 1e-7])
+        d["process_noise"] = {k: v * sc * 50 for k, v in d["process_noise"].items()}
+        d["sensor_noises"] = {s_: {r: v * sc for r, v in rd.items()} for s_, rd in d["sensor_noises"].items()}
+        d["family"] = "tiny_magnitude"
+        d["cov_scale"] = sc
+        return d
     return gen.contractive_program(rng, n_state=(1, 4), n_control=(0, 2), n_calib=(0, 1), n_sensor=(1, 2),
                                    n_reading=(1, 3), depth=1, n_shared=(0, 1), allow_text=False)
 
@@ -182,6 +193,9 @@ def run_unit(unit, ctx):
     ekf = b.py_ekf(innovation_filtering=k, max_dt_sec=md, common_subexpression_elimination=rng.random() < 0.5)
     names = sorted(defn["state"])
     ckind, P0 = init_cov(rng, len(names))
+    if defn.get("cov_scale"):
+        P0 = P0 * defn["cov_scale"]
+        R.stats.inc("histories_tiny_magnitude")
     last = {"raised_on": None}
 
     def on_assert(a, kw, res, exc, tokens):
@@ -225,7 +239,8 @@ def run_unit(unit, ctx):
                     sn = rng.choice(sorted(defn["sensors"]))
                     rd = [str(q) for q in ekf.sensor_models[sn].readings]
                     pred = ekf.sensor_models[sn].model(st).data
-                    z = {q: float(pred[j, 0]) + rng.gauss(0, 1) for j, q in enumerate(rd)}
+                    zsc = (defn.get("cov_scale") or 1.0) ** 0.5
+                    z = {q: float(pred[j, 0]) + rng.gauss(0, 1) * zsc for j, q in enumerate(rd)}
                     r = ekf.sensor_model(st, cov, sensor_key=sn, sensor_reading=ekf.make_reading(sn, **z))
                     n_upd += 1
             except AssertionError as e:
